@@ -631,6 +631,15 @@ func (x *FnIndex) originTrace(v ssa.Value, rec func(*ssa.UnOp)) ssa.Value {
 				v = st[0].Val
 				continue
 			}
+			if len(st) > 1 && al.Parent() != t.Parent() {
+				// a captured cell assigned on several ways (one per return site of an inlined
+				// helper) of which exactly one reaches the creation of the literal, and none
+				// can run after it
+				if def := x.soleDefAtLiteral(al, st, t.Parent()); def != nil {
+					v = def.Val
+					continue
+				}
+			}
 			if len(st) >= 1 && al.Parent() == t.Parent() && !x.outsideStoresInterfere(al, t) {
 				defs, zero := x.reachingStores(t, al)
 				if len(defs) == 1 && !zero {
@@ -671,6 +680,38 @@ func (x *FnIndex) originTrace(v ssa.Value, rec func(*ssa.UnOp)) ssa.Value {
 		return v
 	}
 	return v
+}
+
+// soleDefAtLiteral: the one store to the cell that reaches the creation of the literal lit (or of the
+// literal of the cell's function that encloses lit), when every store is made by the cell's function
+// and none can run once the literal exists.
+func (x *FnIndex) soleDefAtLiteral(al *ssa.Alloc, stores []*ssa.Store, lit *ssa.Function) *ssa.Store {
+	owner := al.Parent()
+	for _, st := range stores {
+		if st.Parent() != owner {
+			return nil
+		}
+	}
+	for lit != nil && lit.Parent() != owner {
+		lit = lit.Parent()
+	}
+	if lit == nil {
+		return nil
+	}
+	mc := x.closureOf[lit]
+	if mc == nil || mc.Parent() != owner {
+		return nil
+	}
+	defs, zero := x.reachingStores(mc, al)
+	if len(defs) != 1 || zero {
+		return nil
+	}
+	for _, st := range stores {
+		if _, again := pathExists(owner, mc, func(in ssa.Instruction) bool { return in == ssa.Instruction(st) }, nil); again {
+			return nil
+		}
+	}
+	return defs[0]
 }
 
 // storedBeforeLiteral: the store (in function owner) dominates the creation
